@@ -45,6 +45,8 @@ import (
 	"github.com/pegnet/pegnetd/node/pegnet"
 	log "github.com/sirupsen/logrus"
 	"github.com/spf13/viper"
+
+	"verif/harness/run"
 )
 
 type Fork struct {
@@ -114,6 +116,9 @@ func classify(err error) (string, string, bool) {
 	case strings.Contains(t, "pegnetd downgrade was detected"):
 		return "downgrade", short, false
 	case strings.HasPrefix(t, "pegnetd database hardfork check failed"):
+		return "check-other", short, false
+	case strings.Contains(t, "migration") || strings.Contains(t, "duplicate column") || strings.Contains(t, "no such column"):
+		// the start-up refused the database for another reason than the version lock: still a refusal of that database
 		return "check-other", short, false
 	}
 	// not an answer of the hard fork check at all (cannot open database, ...)
@@ -201,6 +206,18 @@ func runCase(c Case, dir string) (out Out) {
 	pegnet.Hardforks = table
 
 	dbpath := filepath.Join(dir, "db", "pegnet.db") // the code appends ".v4"
+	// how old the database file is has no bearing on the verdict: for two thirds of the cases its balance table predates the
+	// newer asset lists (the daemon's own start-up migrations bring it up to date)
+	sum := 0
+	for _, ch := range c.ID {
+		sum += int(ch)
+	}
+	if era := []string{"", "pre-v5", "pre-v4"}[sum%3]; era != "" && len(c.Hist) > 0 && c.Hist[0].V >= 0 {
+		os.MkdirAll(filepath.Dir(dbpath), 0777)
+		if err := run.CreateLegacyAddresses(dbpath+".v4", era); err != nil {
+			return fail("legacy schema: %v", err)
+		}
+	}
 	synced := 0
 	for _, s := range c.Hist {
 		st := Start{Build: s.V, NoHf: "na"}
@@ -208,6 +225,12 @@ func runCase(c Case, dir string) (out Out) {
 			// build predating version tracking: no check at start-up
 			p := pegnet.New(newConf(dbpath, false))
 			if err := p.Init(); err != nil {
+				if kind, text, infra := classify(err); !infra {
+					// the start-up code itself refused the database (e.g. a migration error): an observation, not a harness problem
+					st.Refused, st.Err, st.Text = true, kind, text
+					out.Obs.Sess = append(out.Obs.Sess, st)
+					break
+				}
 				return fail("legacy init: %v", err)
 			}
 			if err := syncBlocks(p, synced, s.N, true); err != nil {
